@@ -151,7 +151,7 @@ Proof.
     gcase F W Hstep c. destruct p; try discriminate Hstep.
     assert (Hsc : sc = false). { destruct sc; [|reflexivity]. destruct (G2 eq_refl) as (_ & _ & H & _). discriminate H. }
     subst sc. cbn [orb] in Hstep.
-    destruct ((buf <=? 0) || (close || closeOnShutdown cf && stop s) || hjk) eqn:E1.
+    destruct ((buf <=? 0) || (close || closeOnShutdown cf && stop s) || hjk || reduceMem cf) eqn:E1.
     + destruct cc; injection Hstep as <-; gfin F.
     + injection Hstep as <-. gfin F.
   - (* LStoreT *) gcase F W Hstep c. destruct p; try discriminate Hstep. injection Hstep as <-. gfin F.
@@ -258,25 +258,25 @@ Definition closeidle_unflushed_trace : list label :=
    LUnregIdle 0; LOpenDec 0; LTicker; LCloseIdle; LReadServing; LReadOpen].
 
 Lemma unflushed_is_flushed_now :
-  match run (mkCfg false false) init unflushed_trace with
+  match run (mkCfg false false false) init unflushed_trace with
   | Some s => sd s = SReturnedNil /\ map started (conns s) = [1] /\ map delivered (conns s) = [1] /\ n_lost s = 0
   | None => False
   end.
 Proof. vm_compute. repeat split; reflexivity. Qed.
 
 Lemma pipelined_conn_is_not_closed_as_idle_now :
-  (match run (mkCfg false false) init closeidle_unflushed_trace with
+  (match run (mkCfg false false false) init closeidle_unflushed_trace with
    | Some s => sd s = SReturnedNil /\ map started (conns s) = [2] /\ map delivered (conns s) = [2] /\ n_lost s = 0 /\ map srvClosed (conns s) = [false]
    | None => False
    end) /\
-  (match run (mkCfg true false) init closeidle_unflushed_trace with
+  (match run (mkCfg true false false) init closeidle_unflushed_trace with
    | Some s => sd s = SReturnedNil /\ map started (conns s) = [2] /\ map delivered (conns s) = [2] /\ n_lost s = 0
    | None => False
    end).
 Proof. split; vm_compute; repeat split; reflexivity. Qed.
 
 Lemma closeidle_request_in_hand_is_not_served_now :
-  match run (mkCfg false false) init closeidle_trace with
+  match run (mkCfg false false false) init closeidle_trace with
   | Some s => sd s = SReturnedNil /\ map started (conns s) = [1] /\ map delivered (conns s) = [1] /\ n_lost s = 0
   | None => False
   end.
@@ -322,9 +322,9 @@ Definition graceful_shutdown : list label :=
    LTicker; LCloseIdle; LReadServing; LReadOpen].
 
 Lemma graceful_example :
-  match run (mkCfg false false) init graceful_trace with
+  match run (mkCfg false false false) init graceful_trace with
   | Some s1 =>
-      match run (mkCfg false false) s1 graceful_shutdown with
+      match run (mkCfg false false false) s1 graceful_shutdown with
       | Some s => sd s = SReturnedNil /\ map started (conns s) = [1; 1; 1] /\ map delivered (conns s) = [1; 1; 1]
                   /\ map srvClosed (conns s) = [true; true; false] /\ n_lost s = 0 /\ closedch (dn s) = [O] /\ done (dn s) = None
       | None => False
@@ -360,7 +360,7 @@ Definition gave_up_trace : list label :=
    LStore0 0; LLoadStop 0; LReadReq 0; LHandlerEnd 0; LWrite 0 false].
 
 Lemma after_error_return_a_response_can_be_lost :
-  match run (mkCfg false false) init gave_up_trace with
+  match run (mkCfg false false false) init gave_up_trace with
   | Some s => sd s = SReturnedErr /\ map lost (conns s) = [1; 0]
   | None => False
   end.
@@ -389,11 +389,11 @@ Definition cycle1 : list label := [LServeStart] ++ one_request 0 0 ++ begin_shut
 Definition cycle2_until_done_closed : list label := [LServeStart] ++ one_request 1 1 ++ begin_shutdown 1.
 
 Lemma reuse_example :
-  match run (mkCfg false false) init cycle1 with
+  match run (mkCfg false false false) init cycle1 with
   | Some s1 =>
       (* first cycle over: returned nil, s.done = nil, s.doneClosed = false, channel 0 closed *)
       sd s1 = SReturnedNil /\ done (dn s1) = None /\ dflag (dn s1) = false /\ closedch (dn s1) = [O] /\
-      match run (mkCfg false false) s1 cycle2_until_done_closed with
+      match run (mkCfg false false false) s1 cycle2_until_done_closed with
       | Some s2 =>
           (* second cycle: Serve made a fresh channel, the handler in flight holds it, this Shutdown has closed it *)
           sd s2 = SWait /\ map cdone (conns s2) = [Some O; Some 1%nat] /\ n_handlers s2 = 1 /\
@@ -401,10 +401,10 @@ Lemma reuse_example :
           (* the context expires; a further Shutdown call takes the `s.ln == nil` shortcut and returns nil at once although the handler
              still runs ("When ShutdownWithContext returns errors, any operation to the Server is unavailable"): the pending failure is
              what `just_shut_down` excludes; the handler's channel stays closed *)
-          match run (mkCfg false false) s2 [LCtxExpire; LSetStop] with
+          match run (mkCfg false false false) s2 [LCtxExpire; LSetStop] with
           | Some s3 => sd s3 = SReturnedNil /\ tainted (dn s3) = true /\ n_handlers s3 = 1 /\ chan_closed (dn s3) 1 = true /\
                        (* Serve once more on the tainted server: it keeps the closed channel *)
-                       match run (mkCfg false false) s3 ([LServeStart] ++ one_request 2 2) with
+                       match run (mkCfg false false false) s3 ([LServeStart] ++ one_request 2 2) with
                        | Some s4 => map cdone (conns s4) = [Some O; Some 1%nat; Some 1%nat] /\ chan_closed (dn s4) 1 = true
                        | None => False
                        end
@@ -424,16 +424,16 @@ Definition fresh_conn_trace : list label :=
    LStore0 0; LLoadStop 0; LLookup 0; LUnregIdle 0; LOpenDec 0; LTicker; LCloseIdle; LReadServing; LReadOpen].
 
 Lemma fresh_conn_first_request_is_not_served :
-  (match run (mkCfg false false) init (firstn 13 fresh_conn_trace) with
+  (match run (mkCfg false false false) init (firstn 13 fresh_conn_trace) with
    | Some s => map srvClosed (conns s) = [true] /\ map pc (conns s) = [CGotByte]       (* closed as idle with its first request in hand *)
    | None => False
    end) /\
-  (match run (mkCfg false false) init fresh_conn_trace with
+  (match run (mkCfg false false false) init fresh_conn_trace with
    | Some s => sd s = SReturnedNil /\ map started (conns s) = [0] /\ n_lost s = 0
    | None => False
    end) /\
   (* without the 5 s the pass leaves the new connection alone and the request is served *)
-  (match run (mkCfg false false) init [LServeStart; LAccept 0; LOpenInc 0; LRegIdle 0; LSetDeadline 0; LSend 0; LPeekOk 0;
+  (match run (mkCfg false false false) init [LServeStart; LAccept 0; LOpenInc 0; LRegIdle 0; LSetDeadline 0; LSend 0; LPeekOk 0;
                                         LSetStop; LCloseListeners; LAcceptFail 0; LCloseDone; LCloseIdle; LReadServing; LReadOpen;
                                         LStore0 0; LLoadStop 0; LLookup 0; LReadReq 0] with
    | Some s => map srvClosed (conns s) = [false] /\ n_handlers s = 1
